@@ -64,6 +64,24 @@ static void case_c13(vrng *r)
     char what[400];
     uint64_t runs = 0;
     if (!init) { vw_count("init_rejected", 1); goto done; }
+    /* prior history on the same parser object: to_string rewinds by itself, so neither an abandoned walk nor a latched error may matter */
+    {
+        uint32_t h = vrn(r, 4);
+        if (h == 1 || h == 2) {
+            bool b = root == K_OBJ ? binson_parser_go_into_object(c.p) : binson_parser_go_into_array(c.p);
+            for (uint32_t i = 0; b && i < 1 + vrn(r, 6); i++) {
+                if (!binson_parser_next(c.p)) break;
+                binson_type ty = binson_parser_get_type(c.p);
+                if (ty == BINSON_TYPE_OBJECT && vrn(r, 2)) binson_parser_go_into_object(c.p);
+                else if (ty == BINSON_TYPE_ARRAY && vrn(r, 2)) binson_parser_go_into_array(c.p);
+            }
+            vw_count("history_abandoned_walk", 1);
+        }
+        if (h == 2 || h == 3) {
+            if (vrn(r, 2)) binson_parser_next_ensure(c.p, (binson_type)77); else binson_parser_field_with_length(c.p, NULL, 1);
+            if (c.p->error_flags != BINSON_ERROR_NONE) vw_count("history_latched_error", 1);
+        }
+    }
     /* NULL query with garbage in *size */
     size_t need = (size_t)vr64(r);
     bool q = binson_parser_to_string(c.p, NULL, &need, vrn(r, 2));
